@@ -137,3 +137,12 @@ package aquahash
 //@   ensures[C13] @gasbound result == nil ==> (old(parent.GasLimit) >= old(header.GasLimit) ==> old(parent.GasLimit) - old(header.GasLimit) < old(parent.GasLimit) / 1024)
 //@     && (old(header.GasLimit) > old(parent.GasLimit) ==> old(header.GasLimit) - old(parent.GasLimit) < old(parent.GasLimit) / 1024)
 //@   ensures[C13] @number result == nil ==> old(big(header.Number)) == old(big(parent.Number)) + 1
+
+// ---- the sealer hands out only seals that meet the target (C14) ------------------------------------
+// mine performs a channel send (of the sealed block, on `found`) only after a nonce whose
+// version-selected digest is at most 2^256 / difficulty was found (argon2id versions; the ethash
+// path computes its digest outside VersionHash). $sent counts the channel sends of the activation.
+//@ func Aquahash.mine
+//@   requires aquahash != nil && block != nil && block.header != nil && block.header.Difficulty != nil && big(block.header.Difficulty) > 0
+//@   ensures[C14] @sealmeets $sent > old($sent) && version != 1 ==> lastvh <= TT256 / old(big(block.header.Difficulty))
+//@   loop 1 invariant[C14] $sent == old($sent) && header != nil && header.Difficulty != nil && big(header.Difficulty) == old(big(block.header.Difficulty)) && header.Version == version && target != nil && big(target) == TT256 / old(big(block.header.Difficulty))
